@@ -105,6 +105,7 @@ func (c *reconnectClient) Connect(ctx context.Context, clientID string, opts ...
 					}
 					c.RetryClient.Retry(ctx)
 					initialized = true
+					verifPoint("reconnect:tasks-pushed", c.RetryClient)
 
 					ctxKeepAlive, cancelKeepAlive := context.WithCancel(ctx)
 					if c.options.PingInterval > time.Duration(0) {
